@@ -36,7 +36,7 @@ MANIFEST = dict(
 )
 
 IMPORTS = ['Coq.ZArith.ZArith', 'Coq.NArith.NArith', 'Coq.Lists.List', 'Coq.Strings.String', 'SV.Num.Mod360', 'SV.Num.AngleSites',
-           'SV.Num.Dec6', 'SV.SM.FrozenOps', 'SV.Gen.AngleSites_gen']
+           'SV.Num.Dec6', 'SV.Num.Dec6CarveProofs', 'SV.SM.FrozenOps', 'SV.Gen.AngleSites_gen']
 PRE = '''Import ListNotations.
 Fixpoint bad_idx {A} (f : A -> bool) (n : N) (l : list A) : list N := match l with [] => [] | x :: r => (if f x then [] else [n]) ++ bad_idx f (n + 1)%N r end.
 Definition t3_eqb (a b : Z * Z * Z) : bool := let '(a1, a2, a3) := a in let '(b1, b2, b3) := b in (Z.eqb a1 b1 && Z.eqb a2 b2 && Z.eqb a3 b3)%bool.
@@ -191,10 +191,17 @@ def corr_format(ck: Ck) -> None:
 PLAIN = re.compile(r'-?[0-9]+(\.[0-9]{1,6})?\Z')
 
 
-def text_problem(s: str) -> str | None:
-    """The property's demands on one printed number."""
+def in_carve_out(x: float) -> bool:
+    """The carved-out class of c05_format6_shape for the pinned pipeline (Props/C05.v c05_carved_pinned_iff), evaluated
+    exactly: x strictly negative, not zero, and |x|*10^6 <= 1/2."""
+    from fractions import Fraction
+    return x < 0 and Fraction(-x) * 10 ** 6 * 2 <= 1
+
+
+def text_problem(s: str, x: float | None = None) -> str | None:
+    """The property's demands on one printed number.  A '-0' outside the known carve-out is a different failure."""
     if s == '-0':
-        return 'negative-zero'
+        return 'negative-zero' if x is None or in_carve_out(x) else 'negative-zero-outside-carve-out'
     if not PLAIN.match(s):
         return 'not-plain'
     return None
@@ -215,9 +222,9 @@ def search_text(ck: Ck) -> None:
             continue
         ck.count('text_cases')
         s = format_float(x)
-        p = text_problem(s)
+        p = text_problem(s, x)
         if p:
-            key = {'negative-zero': 'format-float-negative-zero'}.get(p, 'format-float-' + p)
+            key = 'format-float-' + p
             if key not in found or abs(x) > abs(found[key][0]):
                 found[key] = (x, f'format_float({x!r}) == {s!r}', {'call': 'format_float', 'x': x.hex()})
             continue
@@ -230,9 +237,10 @@ def search_text(ck: Ck) -> None:
             v = cls(x, y, z)
             txt = str(v)
             parts = txt.split(' ')
-            probs = [text_problem(t) for t in parts]
+            probs = [text_problem(t, c) for t, c in zip(parts, (x, y, z))]
             if len(parts) != 3 or any(probs):
-                key = 'vec-str-negative-zero' if 'negative-zero' in probs else 'vec-str-not-plain'
+                key = 'vec-str-negative-zero-outside-carve-out' if 'negative-zero-outside-carve-out' in probs else \
+                    'vec-str-negative-zero' if 'negative-zero' in probs else 'vec-str-not-plain'
                 found.setdefault(key, (x, f'str({v!r}) == {txt!r}', {'call': 'str', 'cls': cls.__name__, 'xyz': [x.hex(), y.hex(), z.hex()]}))
                 continue
             for wrap in ('{}', '({})', '[{}]', ' <{}> ', '{{{}}}'):
@@ -247,9 +255,9 @@ def search_text(ck: Ck) -> None:
                 a = cls(x, y, z)
                 txt = str(a)
                 parts = txt.split(' ')
-                probs = [text_problem(t) for t in parts]
+                probs = [text_problem(t, c) for t, c in zip(parts, (a.pitch, a.yaw, a.roll))]
                 if len(parts) != 3 or any(probs):
-                    key = 'angle-str-negative-zero' if 'negative-zero' in probs else 'angle-str-not-plain'
+                    key = 'angle-str-negative-zero' if any(p and p.startswith('negative-zero') for p in probs) else 'angle-str-not-plain'
                     found.setdefault(key, (x, f'str({a!r}) == {txt!r}', {'call': 'str', 'cls': cls.__name__, 'xyz': [x.hex(), y.hex(), z.hex()]}))
                     continue
                 back = cls.from_str(txt, 77, 77, 77)
@@ -510,7 +518,11 @@ COPY_OPS = {'copy', 'copy_copy', 'deepcopy', 'pickle', 'freeze', 'thaw', 'ctor_s
 
 
 def finite_obj(o) -> bool:
-    return all(isinstance(getattr(o, s), float) and math.isfinite(getattr(o, s)) for s in slots_of(o))
+    return all(isinstance(getattr(o, s, None), float) and math.isfinite(getattr(o, s)) for s in slots_of(o))
+
+
+def missing_slots(o) -> list[str]:
+    return [s for s in slots_of(o) if not hasattr(o, s)]
 
 
 def run_history(hist: list[tuple]):
@@ -535,6 +547,10 @@ def run_history(hist: list[tuple]):
         nregs = len(regs)
         for o in out:
             if isinstance(o, tuple) or o is NotImplemented or o is None:
+                continue
+            if (isvec(o) or isang(o) or ismat(o)) and missing_slots(o):          # an object escaped without all of its slots written
+                problems.append((f'{"angle" if isang(o) else type(o).__name__.lower()}-slot-missing-after-{op[0]}',
+                                 f'{type(o).__name__} returned by {op[0]} has no {missing_slots(o)}', step))
                 continue
             if not any(o is r for r in regs) and finite_obj(o):      # non-finite results are outside the property
                 regs.append(o)
@@ -715,6 +731,9 @@ def search_to_angle(ck: Ck) -> None:
         ck.hist('to_angle_route', route)
         if any(abs(x) < 1e-9 and x != 0 for x in v):
             ck.seen(('toang', route, tuple(x.hex() for x in v)))
+        if missing_slots(a):
+            found.setdefault('angle-slot-missing-after-to_angle', (route, v, tuple(missing_slots(a))))
+            continue
         vals = (a.pitch, a.yaw, a.roll)
         if all(math.isfinite(x) for x in vals) and not all(0.0 <= x < 360.0 for x in vals):
             key = 'angle-360-from-matrix-to-angle' if route != 'vec_to_angle' else 'angle-out-of-range-after-vec_to_angle'
@@ -774,11 +793,16 @@ def run(ck: Ck) -> None:
             'all_angle_store_sites_safe': 'all_sites_safe angle_sites',
             'no_single_modulo_store': empty('sites_of_kind is_single angle_sites'),
             'no_unclassified_angle_store': empty('sites_of_kind is_other angle_sites'),
+            'no_unclassified_angle_creation': 'all_creations_ok angle_creations',
+            'to_angle_stores_all_slots': 'to_angle_stores_all_slots',
+            'angle_init_stores_all_slots': 'angle_init_stores_all_slots',
+            'format_float_pipeline_recognised': 'format_float_recognised',
+            'format_float_exact_zero_has_no_sign': 'zero_sign_ok format_float_cfg',
             'format_float_places_is_6': 'N.eqb (places format_float_cfg) 6',
             'format_float_strips_zeros': 'strips format_float_cfg',
             'format_float_pipeline_ok_up_to_negative_zero': 'cfg_base_ok format_float_cfg',
             'str_and_join_use_format_float': 'str_uses_format_float',
-            'mutation_census_ok_except_known_matmul': 'table_ok mut_events carve_matmul',
+            'mutation_census_ok': 'table_ok mut_events no_carve',
             'no_write_through_unknown_or_aliased_object': 'forallb (fun e : mut_event => match snd (fst e) with Unknown | MaybeAlias | Param => helper (snd (fst (fst e))) | _ => true end) mut_events',
         })
         if not all(res.values()):      # a premise of the theorems no longer holds for today's source: escalate the search
@@ -794,27 +818,41 @@ def run(ck: Ck) -> None:
         corr_frames(ck, frames)
     search_to_angle(ck)
     search_text(ck)
-    # Failed instance obligations are explained by the concrete input the search exhibits for them.
+    explain_failures(ck)
+
+
+def explain_failures(ck: Ck) -> None:
+    """Failed obligations are explained only by a concrete, replayable violation of the matching kind (a KNOWN '-0'
+    finding explains nothing: it leaves no obligation failing)."""
     keys = {v['key'] for v in ck.violations}
-    if any(k.startswith(('format-float-', 'vec-str-', 'angle-str-')) and not k.endswith('negative-zero') for k in keys) \
-            and any('format_float' in o['detail'] for o in ck.obligations if o['name'].startswith('translate:') and not o['ok']):
-        ck.explain('translate:')       # the translator failed closed on format_float and the search shows the broken output
-    if 'angle-360-from-matrix-to-angle' in keys:
-        ck.explain('instance:all_angle_store_sites_safe')
-        ck.explain('instance:no_single_modulo_store')
-    if any(k.startswith('format-float-') or k.startswith('vec-str-') or k.startswith('angle-str-') for k in keys):
-        ck.explain('instance:format_float_pipeline_ok_up_to_negative_zero')
-        ck.explain('instance:format_float_places_is_6')
-        ck.explain('instance:format_float_strips_zeros')
+    text = [k for k in keys if k.startswith(('format-float-', 'vec-str-', 'angle-str-')) and not k.endswith('-negative-zero')]
+    if text:
+        for o in ('instance:format_float_pipeline_recognised', 'instance:format_float_pipeline_ok_up_to_negative_zero',
+                  'instance:format_float_places_is_6', 'instance:format_float_strips_zeros', 'instance:str_and_join_use_format_float',
+                  'correspondence:format6'):
+            ck.explain(o)
+        if any(o['name'] == 'instance:format_float_pipeline_recognised' and not o['ok'] for o in ck.obligations):
+            ck.explain('instance:format_float_exact_zero_has_no_sign')     # all flags are off for an unrecognised pipeline
+        if any('format_float' in o['detail'] or '__str__' in o['detail'] or 'join' in o['detail'] or '__repr__' in o['detail']
+               for o in ck.obligations if o['name'].startswith('translate:') and not o['ok']):
+            ck.explain('translate:')       # the translator failed closed on a text method and the search shows the broken output
+    if any(k.endswith('negative-zero-outside-carve-out') for k in keys):
+        ck.explain('instance:format_float_exact_zero_has_no_sign')
         ck.explain('correspondence:format6')
-    if any(k.startswith('frozen-') or k.startswith('non-receiver-') for k in keys):
-        ck.explain('instance:mutation_census_ok_except_known_matmul')
+    if any(k.startswith(('vec-from-str', 'angle-from-str', 'parse-vec-str')) for k in keys):
+        for o in ('instance:parse_vec_str_', 'instance:from_str_', 'correspondence:parse_vec_str'):
+            ck.explain(o)
+    if any(k.startswith(('angle-360-', 'angle-out-of-range', 'angle-slot-missing')) for k in keys):
+        for o in ('instance:all_angle_store_sites_safe', 'instance:no_single_modulo_store', 'instance:no_unclassified_angle_store',
+                  'instance:no_unclassified_angle_creation', 'instance:to_angle_stores_all_slots', 'instance:angle_init_stores_all_slots'):
+            ck.explain(o)
+    if any(k.startswith(('frozen-', 'frozenmatrix-', 'non-receiver-')) for k in keys):
+        ck.explain('instance:mutation_census_ok')
         ck.explain('instance:no_write_through_unknown_or_aliased_object')
         ck.explain('correspondence:frames')
-    if any(k.startswith('angle-out-of-range') for k in keys):
-        ck.explain('instance:all_angle_store_sites_safe')
-        ck.explain('instance:no_unclassified_angle_store')
-        ck.explain('instance:no_single_modulo_store')
+    if any(k.startswith(('copy-is-same-object', 'copy-not-equal')) for k in keys):
+        ck.explain('instance:copy_results_')
+        ck.explain('correspondence:results')
 
 
 def replay(data: dict) -> int:
